@@ -18,6 +18,11 @@
 (*   P2:  c := 7                                                           *)
 (*   P3:  c := 1; d := a + b        (fails after c := 1 when a is an int   *)
 (*                                   and b a string: partial effect)      *)
+(*   P4:  a.x[0] += 1               (mutates a container in place)         *)
+(* Containers handed in by the host have identity: heap[id] is the content *)
+(* of container id.  Compile hands the *same* container to every Compiled  *)
+(* object made from the Script (the implementation does not copy there);   *)
+(* Clone copies deeply, Set and Add bring in fresh containers.             *)
 (*                                                                         *)
 (* hist is the call history with return values; VIEW hides it, so TLC's    *)
 (* breadth-first search visits every (abstract state, call) edge once and  *)
@@ -34,44 +39,58 @@ CONSTANTS Names,      \* names the host uses in Add/Remove/Set/Get
 I(n) == [k |-> "int", n |-> n]
 S(b) == [k |-> "str", b |-> b]
 MCVals == {I(1), I(2), S(<<115>>)}      \* the ints 1, 2 and the string "s"
-MCVals2 == {I(2), S(<<115>>)}
+NewCont == [k |-> "newcont"]            \* a fresh Go map {"x": [0]} handed in by the host
+MCVals2 == {I(2), S(<<115>>), NewCont}
 
-Srcs == {"P1", "P2", "P3"}
-Uses(s) == CASE s = "P1" -> {"a", "b"} [] s = "P2" -> {} [] s = "P3" -> {"a", "b"}
-Defines(s) == CASE s = "P1" -> {"c"} [] s = "P2" -> {"c"} [] s = "P3" -> {"c", "d"}
+Srcs == {"P1", "P2", "P3", "P4"}
+Uses(s) == CASE s = "P1" -> {"a", "b"} [] s = "P2" -> {} [] s = "P3" -> {"a", "b"} [] s = "P4" -> {"a"}
+Defines(s) == CASE s = "P1" -> {"c"} [] s = "P2" -> {"c"} [] s = "P3" -> {"c", "d"} [] s = "P4" -> {}
+MaxContent == 2
 U == [k |-> "undef"]
 
 Digit(n) == <<48 + n>>
-Plus(x, y) == \* the + operator on the value universe; [k |-> "err"] = run-time error
+Plus(x, y, h) == \* the + operator on the value universe; [k |-> "err"] = run-time error
   IF x.k = "undef" \/ y.k = "undef" THEN [k |-> "err"]
+  ELSE IF x.k = "cont" THEN [k |-> "err"]                     \* map + anything: invalid operation
+  ELSE IF x.k = "str" /\ y.k = "cont" THEN S(x.b \o <<123, 120, 58, 32, 91>> \o Digit(h[y.id]) \o <<93, 125>>)   \* "s" + {x: [n]}
+  ELSE IF y.k = "cont" THEN [k |-> "err"]
   ELSE IF x.k = "int" /\ y.k = "int" THEN I(x.n + y.n)
   ELSE IF x.k = "str" /\ y.k = "str" THEN S(x.b \o y.b)
   ELSE IF x.k = "str" THEN S(x.b \o Digit(y.n))   \* string + int: the decimal text is appended (ints here are 0..9)
   ELSE [k |-> "err"]                             \* int + string: invalid operation
 
-\* effect of running script s on globals g: [g, ok]
-Effect(s, g) ==
-  CASE s = "P1" -> [g |-> [g EXCEPT !["c"] = g["a"], !["a"] = g["b"]], ok |-> TRUE]
-    [] s = "P2" -> [g |-> [g EXCEPT !["c"] = I(7)], ok |-> TRUE]
-    [] s = "P3" -> LET g1 == [g EXCEPT !["c"] = I(1)] r == Plus(g["a"], g["b"]) IN
-                   IF r.k = "err" THEN [g |-> g1, ok |-> FALSE]
-                   ELSE [g |-> [g1 EXCEPT !["d"] = r], ok |-> TRUE]
+\* effect of running script s on globals g and the container heap h: [g, h, ok]
+Effect(s, g, h) ==
+  CASE s = "P1" -> [g |-> [g EXCEPT !["c"] = g["a"], !["a"] = g["b"]], h |-> h, ok |-> TRUE]
+    [] s = "P2" -> [g |-> [g EXCEPT !["c"] = I(7)], h |-> h, ok |-> TRUE]
+    [] s = "P3" -> LET g1 == [g EXCEPT !["c"] = I(1)] r == Plus(g["a"], g["b"], h) IN
+                   IF r.k = "err" THEN [g |-> g1, h |-> h, ok |-> FALSE]
+                   ELSE [g |-> [g1 EXCEPT !["d"] = r], h |-> h, ok |-> TRUE]
+    [] s = "P4" -> IF g["a"].k = "cont" THEN [g |-> g, h |-> [h EXCEPT ![g["a"].id] = @ + 1], ok |-> TRUE]
+                   ELSE [g |-> g, h |-> h, ok |-> FALSE]
 
-VARIABLES src, vars, objs, hist
-vars4 == <<src, vars, objs>>
+VARIABLES src, vars, objs, heap, hist
+vars4 == <<src, vars, objs, heap>>
 
 Init == /\ src \in Srcs
         /\ vars = [n \in {} |-> U]
         /\ objs = <<>>
+        /\ heap = <<>>
         /\ hist = <<>>
 
 Call(op, args, ret) == hist' = Append(hist, [op |-> op, args |-> args, ret |-> ret])
 
-Add(n, v) == /\ vars' = [m \in DOMAIN vars \cup {n} |-> IF m = n THEN v ELSE vars[m]]
+Fresh(v) == IF v.k = "newcont" THEN [k |-> "cont", id |-> Len(heap) + 1] ELSE v
+HeapAfter(v) == IF v.k = "newcont" THEN Append(heap, 0) ELSE heap
+Shown(v, h) == IF v.k = "cont" THEN [k |-> "cont", n |-> h[v.id]] ELSE v     \* what the host sees of a value
+
+Add(n, v) == /\ Len(heap) < 4
+             /\ vars' = [m \in DOMAIN vars \cup {n} |-> IF m = n THEN Fresh(v) ELSE vars[m]]
+             /\ heap' = HeapAfter(v)
              /\ Call("Add", <<n, v>>, "ok") /\ UNCHANGED <<src, objs>>
 
 Remove(n) == /\ vars' = [m \in DOMAIN vars \ {n} |-> vars[m]]
-             /\ Call("Remove", <<n>>, n \in DOMAIN vars) /\ UNCHANGED <<src, objs>>
+             /\ Call("Remove", <<n>>, n \in DOMAIN vars) /\ UNCHANGED <<src, objs, heap>>
 
 CompileOK == Uses(src) \subseteq DOMAIN vars /\ Defines(src) \cap DOMAIN vars = {}
 Compile == /\ Len(objs) < MaxObjs
@@ -81,21 +100,35 @@ Compile == /\ Len(objs) < MaxObjs
                    /\ Call("Compile", <<>>, "ok")
               ELSE /\ objs' = objs
                    /\ Call("Compile", <<>>, "err")
-           /\ UNCHANGED <<src, vars>>
+           /\ UNCHANGED <<src, vars, heap>>
 
-Run(i) == LET e == Effect(src, objs[i].g) IN
+Run(i) == LET e == Effect(src, objs[i].g, heap) IN
+          /\ \A k \in 1..Len(e.h) : e.h[k] <= MaxContent
           /\ objs' = [objs EXCEPT ![i].g = e.g]
+          /\ heap' = e.h
           /\ Call("Run", <<i>>, IF e.ok THEN "ok" ELSE "err") /\ UNCHANGED <<src, vars>>
 
 GetVal(o, n) == IF n \in o.names THEN o.g[n] ELSE U
-Get(i, n) == Call("Get", <<i, n>>, GetVal(objs[i], n)) /\ UNCHANGED vars4
+Get(i, n) == Call("Get", <<i, n>>, Shown(GetVal(objs[i], n), heap)) /\ UNCHANGED vars4
 IsDefined(i, n) == Call("IsDefined", <<i, n>>, GetVal(objs[i], n) # U) /\ UNCHANGED vars4
-GetAll(i) == Call("GetAll", <<i>>, {<<n, objs[i].g[n]>> : n \in objs[i].names}) /\ UNCHANGED vars4
-Set(i, n, v) == IF n \in objs[i].names
-                THEN objs' = [objs EXCEPT ![i].g[n] = v] /\ Call("Set", <<i, n, v>>, "ok") /\ UNCHANGED <<src, vars>>
-                ELSE Call("Set", <<i, n, v>>, "err") /\ UNCHANGED vars4
+GetAll(i) == Call("GetAll", <<i>>, {<<n, Shown(objs[i].g[n], heap)>> : n \in objs[i].names}) /\ UNCHANGED vars4
+Set(i, n, v) == /\ Len(heap) < 4
+                /\ IF n \in objs[i].names
+                   THEN objs' = [objs EXCEPT ![i].g[n] = Fresh(v)] /\ heap' = HeapAfter(v)
+                        /\ Call("Set", <<i, n, v>>, "ok") /\ UNCHANGED <<src, vars>>
+                   ELSE Call("Set", <<i, n, v>>, "err") /\ UNCHANGED vars4
+\* Clone copies every global deeply: containers get new identities with the same content
+CloneGlobals(g, names, h) ==
+  LET conts == {n \in names : g[n].k = "cont"}
+      order == CHOOSE sq \in [1..Cardinality(conts) -> conts] : \A a, b \in 1..Cardinality(conts) : a # b => sq[a] # sq[b]
+      idOf(n) == Len(h) + (CHOOSE k \in 1..Cardinality(conts) : order[k] = n)
+  IN [g |-> [n \in names |-> IF n \in conts THEN [k |-> "cont", id |-> idOf(n)] ELSE g[n]],
+      h |-> h \o [k \in 1..Cardinality(conts) |-> h[g[order[k]].id]]]
 Clone(i) == /\ Len(objs) < MaxObjs
-            /\ objs' = Append(objs, objs[i])
+            /\ LET c == CloneGlobals(objs[i].g, objs[i].names, heap) IN
+               /\ Len(c.h) <= 6
+               /\ objs' = Append(objs, [objs[i] EXCEPT !.g = c.g])
+               /\ heap' = c.h
             /\ Call("Clone", <<i>>, "ok") /\ UNCHANGED <<src, vars>>
 
 AllNames == Names \cup {"c", "d", "zz"}
@@ -106,16 +139,22 @@ Next == \/ \E n \in Names, v \in Vals : Add(n, v)
              \/ Run(i) \/ GetAll(i) \/ Clone(i)
              \/ \E n \in AllNames : Get(i, n) \/ IsDefined(i, n)
              \/ \E n \in AllNames, v \in Vals : Set(i, n, v)
-Spec == Init /\ [][Next]_<<src, vars, objs, hist>>
+Spec == Init /\ [][Next]_<<src, vars, objs, heap, hist>>
 
 \* State identity for the edge-covering search: the concrete values are abstracted to their kinds, so
 \* that TLC keeps one representative per class of API-visible situations (which names are declared
 \* where, which are defined, and of which type - what decides every return value but Get's payload).
 KindOrNone(f, n) == IF n \in DOMAIN f THEN f[n].k ELSE "none"
+\* containers are abstracted to "which names (of which objects / of the Script) share one container"
+ContOf(f, n) == IF n \in DOMAIN f /\ f[n].k = "cont" THEN f[n].id ELSE 0
 ObjView(o) == <<o.names, KindOrNone(o.g, "a"), KindOrNone(o.g, "b"),
                 {n \in o.names \ {"a", "b"} : o.g[n].k # "undef"}>>
+Sharing == LET slots == {<<0, n>> : n \in DOMAIN vars} \cup UNION {{<<i, n>> : n \in objs[i].names} : i \in 1..Len(objs)}
+               idAt(sl) == IF sl[1] = 0 THEN ContOf(vars, sl[2]) ELSE ContOf(objs[sl[1]].g, sl[2])
+           IN <<{<<x, y>> \in slots \X slots : idAt(x) # 0 /\ idAt(x) = idAt(y)},
+                {<<x, heap[idAt(x)]>> : x \in {sl \in slots : idAt(sl) # 0}}>>
 View == <<src, KindOrNone(vars, "a"), KindOrNone(vars, "b"), DOMAIN vars, Len(objs),
-          [i \in 1..Len(objs) |-> ObjView(objs[i])]>>
+          [i \in 1..Len(objs) |-> ObjView(objs[i])], Sharing>>
 EmitEdge == PrintT(<<"CASE", ToJson([src |-> src, calls |-> hist'])>>)
 
 Bounded == Len(hist) < MaxLen
@@ -143,5 +182,12 @@ EmitTables == (hist = <<>>) =>
 \* a compiled object's variable reads as the last value the host set or the script assigned: by
 \* construction of Get/Set/Run above; what TLC checks is isolation and well-formedness
 Isolation == \A i \in 1..Len(objs) : DOMAIN objs[i].g = objs[i].names
-NamesFixed == [][\A i \in 1..Len(objs) : objs'[i].names = objs[i].names]_<<src, vars, objs, hist>>
+NamesFixed == [][\A i \in 1..Len(objs) : objs'[i].names = objs[i].names]_<<src, vars, objs, heap, hist>>
+\* a clone shares no container with the object it was cloned from (checked on every Clone step)
+CloneIsolated ==
+  [][(Len(objs') = Len(objs) + 1 /\ hist'[Len(hist')].op = "Clone") =>
+       \A n \in objs'[Len(objs')].names :
+         \A j \in 1..Len(objs) :
+           \A m2 \in objs[j].names :
+             ContOf(objs'[Len(objs')].g, n) = 0 \/ ContOf(objs'[Len(objs')].g, n) # ContOf(objs'[j].g, m2)]_<<src, vars, objs, heap, hist>>
 =============================================================================
